@@ -43,6 +43,7 @@ def main():
                 pid, r.returncode, len(v), out[pid]["nofail"], out[pid]["secs"], out[pid]["first"][:200]), flush=True)
     finally:
         sh(["git", "-C", REPO, "checkout", "--", "."])
+        sh(["git", "-C", REPO, "clean", "-fdq", "--", "src", "include"])   # files a patch added
         sh(["python3", os.path.join(ROOT, "tools", "extract.py")])
     print(json.dumps(out))
     return 0
